@@ -188,7 +188,11 @@ pub fn literal_pool(kind: u16) -> &'static [&'static str] {
         K_BOOLEAN => &["true", "false"],
         K_OBJECT => &["{}", "{\"a\": 1}", "{\"a\": {\"b\": [1, \"x\"]}, \"c\": null}", "{\"k\": \"v\", \"n\": 2}", "{\"a.b\": 1, \"\": 2}"],
         K_ARRAY => &["[]", "[1]", "[1, \"a\", null]", "[[1], [2]]", "[\"a\", \"b\", \"a\"]", "[{\"key\": \"k\", \"value\": 1}]", "[1.5, 2, 3]"],
-        K_TIMESTAMP => &["t'2021-01-01T00:00:00Z'", "t'1970-01-01T00:00:00Z'", "t'1969-12-31T23:59:59.5Z'", "t'2262-04-11T23:47:16Z'"],
+        K_TIMESTAMP => &[
+            "t'2021-01-01T00:00:00Z'", "t'1970-01-01T00:00:00Z'", "t'1969-12-31T23:59:59.5Z'", "t'2262-04-11T23:47:16Z'",
+            // beyond the i64 range of nanoseconds, and the ends of the calendar chrono accepts
+            "t'2262-04-11T23:47:17Z'", "t'9999-12-31T23:59:59Z'", "t'0001-01-01T00:00:00Z'", "t'1677-09-21T00:12:43Z'",
+        ],
         K_REGEX => &["r'a'", "r''", "r'(?P<x>\\d+)'", "r'.*'", "r'\\s+'"],
         K_NULL => &["null"],
         _ => &["null"],
